@@ -7,7 +7,11 @@
 From DV Require Export Spec.MatchSpec Match.Bus.
 Local Open Scope N_scope.
 
-Record sworld := mkSWorld { sw_bus : sbus; sw_names : names }.
+Record sworld := mkSWorld { sw_bus : sbus; sw_names : names; sw_caps : list conn }.
+
+(* a connection can be given a message with unix fds only if it negotiated fd passing; whether one
+   recipient can take it has no influence on any other recipient *)
+Definition can_take (caps : list conn) (nfds : N) (c : conn) : bool := (nfds =? 0) || existsb (N.eqb c) caps.
 
 Inductive soutput :=
 | SOSignal (rcpts : list conn)
@@ -27,29 +31,32 @@ Fixpoint spec_release_all (ns : names) (b : sbus) (unique : bytes) (l : list byt
 
 Definition spec_step (limit : N) (w : sworld) (e : event) : sworld * soutput :=
   match e with
-  | EvHello c unique =>
+  | EvHello c unique fdcap =>
       let ns := sw_names w ++ [(unique, c)] in
-      (mkSWorld (sw_bus w) ns, SOSignal (spec_recipients ns (sw_bus w) None None (name_owner_changed unique [] unique)))
+      (mkSWorld (sw_bus w) ns (if fdcap then c :: sw_caps w else sw_caps w),
+       SOSignal (spec_recipients ns (sw_bus w) None None (name_owner_changed unique [] unique)))
   | EvOwn c name =>
       let ns := sw_names w ++ [(name, c)] in
-      (mkSWorld (sw_bus w) ns, SOSignal (spec_recipients ns (sw_bus w) None None (name_owner_changed name [] (unique_of (sw_names w) c))))
-  | EvAdd c text => let (b, r) := spec_add limit true (sw_bus w) c text in (mkSWorld b (sw_names w), SOReply r)
-  | EvRemove c text => let (b, r) := spec_remove (sw_bus w) c text in (mkSWorld b (sw_names w), SOReply r)
-  | EvSend c m =>
+      (mkSWorld (sw_bus w) ns (sw_caps w), SOSignal (spec_recipients ns (sw_bus w) None None (name_owner_changed name [] (unique_of (sw_names w) c))))
+  | EvAdd c text => let (b, r) := spec_add limit true (sw_bus w) c text in (mkSWorld b (sw_names w) (sw_caps w), SOReply r)
+  | EvRemove c text => let (b, r) := spec_remove (sw_bus w) c text in (mkSWorld b (sw_names w) (sw_caps w), SOReply r)
+  | EvSend c m nfds =>
       (w, SODelivered
             match m_dest m with
-            | None => if m_type m =? DBUS_MESSAGE_TYPE_SIGNAL then spec_recipients (sw_names w) (sw_bus w) (Some c) None m else []
+            | None => if m_type m =? DBUS_MESSAGE_TYPE_SIGNAL
+                      then filter (can_take (sw_caps w) nfds) (spec_recipients (sw_names w) (sw_bus w) (Some c) None m) else []
             | Some d =>
                 if bytes_eqb d S_org_freedesktop_DBus then [] else
                 match owner_of (sw_names w) d with
                 | None => []
                 | Some a => if negb (valid_type (m_type m)) then []      (* messages of unknown type are not passed on *)
-                            else a :: spec_recipients (sw_names w) (sw_bus w) (Some c) (Some a) m
+                            else if negb (can_take (sw_caps w) nfds a) then []   (* the addressee cannot take the fds: an error, no copies *)
+                            else a :: filter (can_take (sw_caps w) nfds) (spec_recipients (sw_names w) (sw_bus w) (Some c) (Some a) m)
                 end
             end)
   | EvDisconnect c =>
       let unique := unique_of (sw_names w) c in
       let b := spec_disconnect (sw_bus w) c in
       let (ns, l) := spec_release_all (sw_names w) b unique (released_names (sw_names w) c) in
-      (mkSWorld b ns, SOSignals l)
+      (mkSWorld b ns (sw_caps w), SOSignals l)
   end.
